@@ -4,6 +4,7 @@ import (
 	"encoding/json"
 	"fmt"
 	"reflect"
+	"strings"
 )
 
 // OvsSet is an OVSDB style set
@@ -92,6 +93,10 @@ func (o *OvsSet) UnmarshalJSON(b []byte) (err error) {
 			uuid, ok := oSet[1].(string)
 			if !ok {
 				return typeError
+			}
+			if oSet[0] == "uuid" {
+				// one spelling per uuid, as UUID.UnmarshalJSON keeps it
+				uuid = strings.ToLower(uuid)
 			}
 			return addToSet(o, UUID{GoUUID: uuid})
 		}
